@@ -145,6 +145,91 @@ async fn start_node(world: &WorldRef, id: u32) {
     world.borrow_mut().nodes.insert(id, Some(node));
 }
 
+/// Fold the committed membership changes with index in (from, to] over `base` (id -> is_learner).
+/// `None` if the commit ledger has a hole in that range.
+fn fold_membership(led: &crate::world::CommitLedger, base: &BTreeMap<u32, bool>, from: u64, to: u64) -> Option<(BTreeMap<u32, bool>, u64)> {
+    use d_engine_proto::common::entry_payload::Payload;
+    use d_engine_proto::common::membership_change::Change;
+    let mut model = base.clone();
+    let mut n = 0;
+    for i in (from + 1)..=to {
+        let le = led.by_index.get(&i)?;
+        if let Some(Payload::Config(mc)) = le.entry.payload.as_ref().and_then(|p| p.payload.clone()) {
+            n += 1;
+            match mc.change {
+                Some(Change::AddNode(a)) => {
+                    model.insert(a.node_id, true);
+                }
+                Some(Change::RemoveNode(r)) => {
+                    model.remove(&r.node_id);
+                }
+                Some(Change::Promote(p)) => {
+                    if let Some(x) = model.get_mut(&p.node_id) {
+                        *x = false;
+                    }
+                }
+                Some(Change::BatchPromote(bp)) => {
+                    for id in bp.node_ids {
+                        if let Some(x) = model.get_mut(&id) {
+                            *x = false;
+                        }
+                    }
+                }
+                Some(Change::BatchRemove(br)) => {
+                    for id in br.node_ids {
+                        model.remove(&id);
+                    }
+                }
+                None => {}
+            }
+        }
+    }
+    Some((model, n))
+}
+
+/// C28, second half: a membership change that a restarted node applies again after the restart (its state machine
+/// had not applied it yet when the node went down) must be in its view. Evaluated at the end of the run.
+async fn check_membership_replayed_after_restart(world: &WorldRef) {
+    let ids: Vec<u32> = world.borrow().nodes.keys().copied().collect();
+    for id in ids {
+        let (members_fut, initial, restart_applied, applied_now, oracle, ledger, kind) = {
+            let w = world.borrow();
+            let Some(Some(n)) = w.nodes.get(&id) else { continue };
+            let Some(cur) = n.cur.as_ref() else { continue };
+            let Some(ra) = w.restart_applied.get(&id).copied() else { continue };
+            let mut initial: BTreeMap<u32, bool> = BTreeMap::new();
+            for m in cur.cfg.cluster.initial_cluster.iter() {
+                initial.insert(m.id, m.role == d_engine_proto::common::NodeRole::Learner as i32);
+            }
+            (cur.membership.clone(), initial, ra, n.sm_img.lock().unwrap().last_applied.0, w.oracle.clone(), w.ledger.clone(), n.last_down_kind.clone())
+        };
+        let members = members_fut.members().await;
+        let mut got: BTreeMap<u32, bool> = BTreeMap::new();
+        for m in members.iter() {
+            got.insert(m.id, m.role == d_engine_proto::common::NodeRole::Learner as i32);
+        }
+        let led = ledger.lock().unwrap();
+        let Some((true_fold, _)) = fold_membership(&led, &initial, 0, applied_now) else { continue };
+        let Some((after_restart_fold, n_replayed)) = fold_membership(&led, &initial, restart_applied, applied_now) else { continue };
+        let mut o = oracle.lock().unwrap();
+        if n_replayed > 0 {
+            o.probe("c28_membership_change_applied_after_restart");
+        }
+        // `after_restart_fold` is what remains when the changes at or below the applied index at restart are lost
+        // (known finding KF16, reported at the restart itself); anything else is a different loss
+        if got != true_fold && got != after_restart_fold {
+            let fmt = |m: &BTreeMap<u32, bool>| m.iter().map(|(k, l)| format!("{}{}", k, if *l { "L" } else { "V" })).collect::<Vec<_>>();
+            o.violate(
+                "C28",
+                "membership_change_applied_after_restart_missing",
+                json!({"node": id, "expected": fmt(&true_fold), "expected_if_only_pre_restart_changes_were_lost": fmt(&after_restart_fold),
+                       "got": fmt(&got), "applied_at_restart": restart_applied, "applied_now": applied_now,
+                       "changes_applied_after_restart": n_replayed, "restart_kind": kind, "equals_initial_config": got == initial}),
+            );
+        }
+    }
+}
+
 /// C28: right after a restart the node's membership view must equal its initial configuration plus every
 /// committed membership change at or below its applied index (fold over the commit ledger).
 async fn check_membership_after_restart(world: &WorldRef, node: &SimNode) {
@@ -152,6 +237,7 @@ async fn check_membership_after_restart(world: &WorldRef, node: &SimNode) {
     use d_engine_proto::common::entry_payload::Payload;
     let Some(cur) = &node.cur else { return };
     let applied = node.sm_img.lock().unwrap().last_applied.0;
+    world.borrow_mut().restart_applied.insert(node.id, applied);
     let (oracle, ledger) = {
         let w = world.borrow();
         (w.oracle.clone(), w.ledger.clone())
@@ -355,6 +441,50 @@ async fn exec_fault(world: WorldRef, f: Fault) {
                 }
             }
         }
+        Fault::IsolateNewLeader { nth, dur, crash, .. } => {
+            let mut rx = {
+                let w = world.borrow();
+                let mut o = w.oracle.lock().unwrap();
+                match &o.leader_signal {
+                    Some(tx) => tx.subscribe(),
+                    None => {
+                        let (tx, rx) = tokio::sync::watch::channel((o.leader_transitions, 0u32));
+                        o.leader_signal = Some(tx);
+                        rx
+                    }
+                }
+            };
+            let base = rx.borrow().0;
+            loop {
+                if world.borrow().in_quiet || rx.changed().await.is_err() {
+                    break;
+                }
+                if world.borrow().in_quiet {
+                    break;
+                }
+                let (c, node) = *rx.borrow();
+                if c >= base + nth as u64 {
+                    if crash {
+                        crash_checked(&world, node, false, dur.min(3000), choice, f.kind_name()).await;
+                    } else {
+                        let rest: Vec<u32> = all.iter().filter(|i| **i != node).copied().collect();
+                        if !rest.is_empty() {
+                            let net = world.borrow().net.clone();
+                            net.partition(&[node], &rest);
+                            world.borrow_mut().fire(f.kind_name());
+                            world.borrow().oracle.lock().unwrap().trace("isolate_new_leader", node as u64, dur, 0);
+                            tokio::time::sleep(Duration::from_millis(dur)).await;
+                            let mut g = net.inner.lock().unwrap();
+                            for b in &rest {
+                                g.blocked.remove(&(node, *b));
+                                g.blocked.remove(&(*b, node));
+                            }
+                        }
+                    }
+                    break;
+                }
+            }
+        }
         Fault::Graceful { node, down_ms, .. } => {
             let id = resolve(&world.borrow(), &node);
             if let Some(id) = id {
@@ -534,6 +664,7 @@ async fn run(plan: Plan, root: &std::path::Path, trace: bool) -> Value {
         fired: BTreeMap::new(),
         faults_active: 0,
         in_quiet: false,
+        restart_applied: BTreeMap::new(),
     }));
     for id in plan.voters.iter() {
         start_node(&world, *id).await;
@@ -593,6 +724,7 @@ async fn run(plan: Plan, root: &std::path::Path, trace: bool) -> Value {
     chk.abort();
     let mut prefix_ok = HashMap::new();
     crate::checks::structural_checks(&world, &mut prefix_ok);
+    check_membership_replayed_after_restart(&world).await;
     let fin = crate::checks::final_checks(&world, &hist);
     crate::watchers::check_watchers(&world, &watch_logs);
 
